@@ -70,7 +70,7 @@ fn c14_one_op_read_your_writes() {
 
 /// MapEqualsChecker: the three stamping routes agree, and a check is consistent iff the current value/absence equals
 /// the stamped one.
-//@h props=C14 tier=quick unwind=8 stubs=sort,optref timeout=900 fieldsens=1024
+//@h props=C14 tier=quick unwind=8 stubs=sort timeout=900 fieldsens=1024
 fn c14_equals_checker_and_stamp_routes() {
   let mut st = TypeToAnyMap::default();
   let (v1, v2) = (vk::u8(), vk::u8());
